@@ -379,10 +379,13 @@ pub fn to_ndjson(job: &EngineJob, r: &EngineRun, out: &mut Vec<String>) {
     }
     if job.fields {
         let mut vals: Vec<u128> = vec![];
+        // the same without the leaky-AND check values (for parties that aborted on a protocol check, see Mon_C07)
+        let mut vals_nolaand: Vec<u128> = vec![];
         let mut undecoded = 0;
         for m in &net.msgs {
             match crate::adv::schema(&m.phase).and_then(|s| crate::adv::decode_all(&s, &m.sent)) {
                 Some(v) => {
+                    let before = vals.len();
                     crate::adv::collect_u128(&v, &mut vals);
                     // the aShare decommitment is a byte string: bit, then one big-endian MAC per other party
                     if m.phase == "fashare ver" {
@@ -396,12 +399,17 @@ pub fn to_ndjson(job: &EngineJob, r: &EngineRun, out: &mut Vec<String>) {
                             }
                         }
                     }
+                    if m.phase != "flaand hash" {
+                        vals_nolaand.extend_from_slice(&vals[before..]);
+                    }
                 }
                 None => undecoded += 1,
             }
         }
         vals.sort();
         vals.dedup();
+        vals_nolaand.sort();
+        vals_nolaand.dedup();
         // raw scan: each probed delta, both byte orders, every offset of every message
         let mut raw = vec![];
         for pe in r.probes.iter().filter(|p| p.name == "delta") {
@@ -411,6 +419,7 @@ pub fn to_ndjson(job: &EngineJob, r: &EngineRun, out: &mut Vec<String>) {
             raw.push(json!({"p": pe.p, "hits": hits}));
         }
         out.push(json!({"ev": "fields", "vals": vals.iter().map(|v| crate::adv::limbs(*v)).collect::<Vec<_>>(),
+                        "vals_nolaand": vals_nolaand.iter().map(|v| crate::adv::limbs(*v)).collect::<Vec<_>>(),
                         "undecoded": undecoded, "raw": raw, "messages": net.msgs.len()}).to_string());
     }
     if job.predict {
